@@ -342,6 +342,12 @@ func NewValidatorsRequest(method *abi.Method, args []interface{}) (*stakingtypes
 		return nil, fmt.Errorf("error while unpacking args to ValidatorsInput struct: %s", err)
 	}
 
+	// an empty key is decoded from the ABI as a non-nil empty slice, which the
+	// paginator rejects together with an offset; treat it as "no key"
+	if len(input.PageRequest.Key) == 0 {
+		input.PageRequest.Key = nil
+	}
+
 	return &stakingtypes.QueryValidatorsRequest{
 		Status:     input.Status,
 		Pagination: &input.PageRequest,
@@ -417,6 +423,12 @@ func NewRedelegationsRequest(method *abi.Method, args []interface{}) (*stakingty
 	if delegatorAddr == "" && input.SrcValidatorAddress == "" && input.DstValidatorAddress == "" ||
 		delegatorAddr == "" && input.SrcValidatorAddress == "" && input.DstValidatorAddress != "" {
 		return nil, errors.New("invalid query. Need to specify at least a source validator address or delegator address")
+	}
+
+	// an empty key is decoded from the ABI as a non-nil empty slice, which the
+	// paginator rejects together with an offset; treat it as "no key"
+	if len(input.PageRequest.Key) == 0 {
+		input.PageRequest.Key = nil
 	}
 
 	return &stakingtypes.QueryRedelegationsRequest{
